@@ -178,6 +178,19 @@ def api_extras(ctx):
                 ctx.fail('string-bits', 'store_string bits are not the UTF-8 bytes', {'s': s}, c.bits.tobytes().hex(), s.encode().hex())
         except Exception as e:
             ctx.fail('string', f'store_string raised {e!r}', {'s': s}, repr(e), 'ok')
+    # load_string(0) / preload_string(0) = all WHOLE bytes that remain (a trailing partial byte stays)
+    for extra in range(0, 8):
+        for text in ('', 'q', 'héllo'):
+            bits = G.bytes_to_bits(text.encode()) + '1' * extra
+            dag = [(G.ORD, bits, ())]
+            cell = G.lib_build(dag)[0]
+            ctx.case(('string-rest', text, extra))
+            ops = ['ps:0', 'ls:0']
+            res, rb, rr = S.exec_slice(cell, ops)
+            want = text.encode().hex() or '-'
+            if res != f'{want};{want}' or rb != ('1' * extra or '-'):
+                ctx.fail('string-rest', f'preload_string()/load_string() on {len(text.encode())} bytes + {extra} bits', {'bits': bits}, [res, rb], [want, '1' * extra])
+            ctx.expect_model(sline(dag, 0, ops), f'ok {res} {rb} {rr}', 'string-rest')
     for n in (0, 1, 126, 127, 128, 300, 1000):
         s = ''.join(rng.choice('abcé日') for _ in range(n))
         for pre in (False, True):
